@@ -5,7 +5,7 @@
 
      Server.ServeHTTP (top-level recover, fallback DefaultErrorFunc)        server.go
        request_id, limits                (transparent for the response)
-       log        (ResponseRecorder, fallback ErrorFunc at >= 400)          log/log.go
+       log        (ResponseRecorder, recover -> 500, fallback ErrorFunc at >= 400) log/log.go
        rewrite                           (changes the path the inner directives see)
        gzip       (ResponseFilterWriter/gzipResponseWriter, DefaultErrorFunc on the RAW
                    writer at >= 400, deferred Close of the pooled gzip.Writer) gzip/gzip.go
@@ -434,9 +434,16 @@ Definition gzip_mw (active : bool) (inner : st -> hres) (x : st) : hres :=
   else inner x.
 
 (* ---------- log ---------- *)
+(* Logger.serveNext: a panic of the inner handlers is recovered and turned into (500, error),
+   so that the fallback below answers through the recorder and the request is logged *)
+Definition log_next (inner : st -> hres) (x : st) : hres :=
+  match inner x with
+  | HPan y => HRet 500 true y
+  | r => r
+  end.
 Definition log_mw (on : bool) (inner : st -> hres) (x : st) : hres :=
   if on then
-    match inner x with
+    match log_next inner x with
     | HPan y => HPan y
     | HRet s e y =>
         if 400 <=? s then
